@@ -10,8 +10,24 @@ fn ts_max() -> i128 {
     Timestamp::MAX.as_nanosecond()
 }
 
-fn strings() -> Vec<&'static str> {
-    vec!["", "a", "conradludgate", "https://paseto.conrad.cafe/", "é", "\u{0}", "a\u{0}b", "\"quoted\"\\", "\u{10000}x", "line\nbreak\ttab", "A", "aa", " a"]
+fn strings() -> Vec<String> {
+    let mut v: Vec<String> = ["", "a", "conradludgate", "https://paseto.conrad.cafe/", "é", "\u{0}", "a\u{0}b", "\"quoted\"\\", "\u{10000}x", "line\nbreak\ttab", "A", "aa", " a"]
+        .iter().map(|s| s.to_string()).collect();
+    v.extend(long_strings().into_iter().take(0));
+    v
+}
+
+fn long_strings() -> Vec<String> {
+    let mut v: Vec<String> = vec![];
+    // long values: a serialiser / writer adapter may treat long fragments differently (buffer sizes are powers of two and
+    // their neighbours); plain runs, and runs interrupted by a character that has to be escaped
+    for n in [63usize, 64, 65, 127, 128, 129, 255, 256, 257, 1000, 4096, 8191, 8192, 8193] {
+        v.push("x".repeat(n));
+    }
+    v.push(format!("{}\"{}", "a".repeat(128), "b".repeat(200)));
+    v.push(format!("{}\n{}é{}", "k".repeat(127), "l".repeat(129), "m".repeat(300)));
+    v.push("\u{1f600}".repeat(64));
+    v
 }
 
 fn gen_claims(r: &mut Rng, now: i128, l: i128) -> String {
@@ -173,7 +189,16 @@ pub fn gen_c14(out: &mut impl Write, seed: u64, thorough: bool) {
     let mut r = Rng::new(seed ^ 0xC14);
     let tsamples: Vec<i128> = vec![ts_min(), ts_max(), 0, 1, -1, 999_999_999, 1_000_000_000, -999_999_999, 1_700_000_000_123_456_789, 1_700_000_000_000_000_000, 1_700_000_000_120_000_000, 951_782_400_000_000_000, -62_135_596_800_000_000_000, -62_135_596_800_000_000_001, 253_402_207_200_000_000_000];
     // claims.enc over every absent/present combination and timestamps across the range at ns resolution
-    let strs = strings();
+    let mut strs = strings();
+    let longs = long_strings();
+    // every long value once in each string field (the rest absent), then mixed in below at a low rate
+    for l in &longs {
+        for i in [0usize, 1, 2, 6] {
+            let c = (0..7).map(|k| if k == i { hex(l.as_bytes()) } else if k == 6 { hex(b"id") } else { "~".to_string() }).collect::<Vec<_>>().join(",");
+            writeln!(out, "claims.enc {c}").unwrap();
+        }
+    }
+    strs.push(longs[3].clone()); strs.push(longs[4].clone()); strs.push(longs[14].clone());
     for mask in 0u32..128 {
         let f = |i: u32, r: &mut Rng| -> String {
             if mask >> i & 1 == 0 { return "~".into(); }
@@ -186,6 +211,11 @@ pub fn gen_c14(out: &mut impl Write, seed: u64, thorough: bool) {
     // surrounding whitespace, truncations, non-object values, empty input, deep nesting, big numbers
     {
         let bases: Vec<&[u8]> = vec![b"{}", b"{\"sub\":\"alice\"}", b"{\"iss\":\"a\",\"x\":[1,2,{\"y\":null}]}", b"[]", b"[1,2]", b"1", b"\"s\"", b"null", b"true", b"1e400", b"-0", b"{\"exp\":\"2024-01-01T00:00:00Z\"}"];
+        let long1 = format!("{{\"k\":\"{}\"}}", "v".repeat(128)).into_bytes();
+        let long2 = format!("{{\"{}\":[\"{}\",\"s\",\"{}\"]}}", "key".repeat(50), "a".repeat(127), "b".repeat(300)).into_bytes();
+        let long3 = format!("[\"{}\",{{\"n\":1}},\"{}\"]", "c".repeat(4096), "d".repeat(129)).into_bytes();
+        let mut bases = bases;
+        bases.push(&long1); bases.push(&long2); bases.push(&long3);
         let tails: Vec<&[u8]> = vec![b"", b" ", b"\n", b"\t\r\n ", b"x", b"{}", b",", b"\0", b"\0\0\0\0", b"}", b"]", b" {}", b"\xef\xbb\xbf", b"//c", b"garbage"];
         let heads: Vec<&[u8]> = vec![b"", b" ", b"\n\t", b"\xef\xbb\xbf", b"x", b","];
         for b in &bases {
@@ -196,7 +226,8 @@ pub fn gen_c14(out: &mut impl Write, seed: u64, thorough: bool) {
                     writeln!(out, "o.json {}", hex(&v)).unwrap();
                 }
             }
-            for cut in 1..b.len() {
+            let step = if b.len() > 200 { b.len() / 37 } else { 1 };
+            for cut in (1..b.len()).step_by(step) {
                 writeln!(out, "o.json {}", hex(&b[..cut])).unwrap();
             }
         }
